@@ -932,3 +932,21 @@ func (e *RouterEnv) QueryRawGet(l string, raw []byte, client string, timeout tim
 	}
 	return [][]byte{body}, "ok"
 }
+
+// SendRawUDPFromPort0 sends one UDP datagram with SOURCE PORT 0 to the udp listener through a raw socket (needs
+// CAP_NET_RAW): the listener cannot send a reply to port 0 (sendmsg fails with EINVAL) - whatever it does with that
+// error, it must go on serving.  Returns false when the raw socket is not available.
+func (e *RouterEnv) SendRawUDPFromPort0(payload []byte) bool {
+	c, err := net.ListenIP("ip4:udp", &net.IPAddr{IP: net.IPv4(127, 0, 0, 1)})
+	if err != nil {
+		return false
+	}
+	defer c.Close()
+	h := make([]byte, 8, 8+len(payload))
+	binary.BigEndian.PutUint16(h[0:], 0)                       // source port 0
+	binary.BigEndian.PutUint16(h[2:], uint16(e.Ports["udp"])) // destination port
+	binary.BigEndian.PutUint16(h[4:], uint16(8+len(payload)))
+	binary.BigEndian.PutUint16(h[6:], 0) // no checksum (IPv4)
+	_, err = c.WriteToIP(append(h, payload...), &net.IPAddr{IP: net.IPv4(127, 0, 0, 1)})
+	return err == nil
+}
